@@ -372,7 +372,9 @@ func runSCIONServer(ctx context.Context, log *slog.Logger, mtrcs *scionServerMet
 									Header:     slayers.PacketAuthOption{EndToEndOption: authOpt},
 									ScionLayer: &scionLayer,
 									PldType:    slayers.L4UDP,
-									Pld:        buf[len(buf)-int(udpLayer.Length):],
+									// the UDP datagram as decoded (header and payload are adjacent
+									// in buf), not the tail of buf: bytes may follow the datagram
+									Pld: udpLayer.Contents[:len(udpLayer.Contents)+len(udpLayer.Payload)],
 								},
 								authBuf,
 								authMAC,
